@@ -1,3 +1,3 @@
--- Model driver for property C12 (stub until the property's model exists).
-import GojaModel.Base.Proto
-def main : IO Unit := GojaModel.Proto.lineMap (fun _ => "unimplemented")
+-- Model driver for property C12: certifying checkers run on goja's actual conversion outputs.
+import GojaModel.C12.Driver
+def main : IO Unit := GojaModel.C12.Driver.main
